@@ -4,17 +4,22 @@ open Qx.Driver Qx.C08
 
 /-
 Line protocol of the C08 model driver.
-  reset <mgr>,<mgr>,…|-                      extension list in registration order            → ok
-  iq <s|e> <type> <from> <id> <kids>          one incoming IQ (s = from the stream, e = decrypted, via injectIq)
-       kids = - | tag|ns|flag;tag|ns|flag…    the children exactly as the real DOM reports them
-  → by=<who decided> n=<number of IQ replies> r=<kind/to/id,…|-> disc=<0|1>
+  reset <mgr>,<mgr>,…|-                             extension list in registration order            → ok
+  iq <s|e|x> <S|N> <type> <from> <id> <kids>        one incoming IQ: s = from the stream, e = injectIq with e2ee metadata,
+                                                    x = encrypted on the stream, decrypted by the e2ee extension;
+                                                    S = session established, N = a negotiation manager is the listener
+       kids = - | tag|ns|flags;…                    the children exactly as the real DOM reports them; flags = flag + 2*flag2
+  → by=<who decided> n=<number of IQ replies> r=<kind/to/id/enc,…|-> disc=<0|1>
+       kind = result | error:<type>:<condition>
 -/
 
 def mgrNames : List (String × Mgr) :=
   [("archive", .archive), ("blocking", .blocking), ("blocking+sub", .blockingSub), ("bookmark", .bookmark),
    ("carbon", .carbon), ("carbonV2", .carbonV2), ("discovery", .discovery), ("entityTime", .entityTime),
    ("mam", .mam), ("muc", .muc), ("pubsub", .pubsub), ("registration", .registration),
-   ("roster", .roster), ("rpc", .rpc), ("transfer", .transfer), ("uploadRequest", .uploadRequest),
+   ("roster", .roster), ("rpc", .rpc), ("transfer", .transfer), ("transfer+accept", .transferAccept),
+   ("transfer+decline", .transferDecline), ("transfer+job", .transferJob), ("transfer+jobopen", .transferJobOpen),
+   ("muc+room", .mucRoom), ("uploadRequest", .uploadRequest),
    ("vcard", .vcard), ("version", .version), ("accountMigration", .accountMigration),
    ("attention", .attention), ("callInvite", .callInvite), ("externalService", .externalService),
    ("httpUpload", .httpUpload), ("jmi", .jmi), ("messageReceipt", .messageReceipt), ("mix", .mix),
@@ -60,15 +65,16 @@ def typeOf : String → Option IqType
 
 def fromOf : String → Option From
   | "none" => some .none | "domain" => some .domain | "ownBare" => some .ownBare
-  | "ownFull" => some .ownFull | "ownOther" => some .ownOther | "other" => some .other | _ => none
+  | "ownFull" => some .ownFull | "ownOther" => some .ownOther | "other" => some .other
+  | "stranger" => some .stranger | _ => none
 
 def idOf : String → Option IdC
-  | "absent" => some .absent | "fresh" => some .fresh | "table" => some .table | "reg" => some .reg | "bm" => some .bm
+  | "absent" => some .absent | "fresh" => some .fresh | "table" => some .table | "reg" => some .reg | "bm" => some .bm | "muc" => some .muc
   | _ => none
 
 def kidOf (w : String) : Option Kid :=
   match w.splitOn "|" with
-  | [t, n, f] => some ⟨tagOf t, nsOf n, f = "1"⟩
+  | [t, n, f] => some ⟨tagOf t, nsOf n, f = "1" || f = "3", f = "2" || f = "3"⟩
   | _ => none
 
 def kidsOf (w : String) : Option (List Kid) :=
@@ -76,15 +82,28 @@ def kidsOf (w : String) : Option (List Kid) :=
 
 def showDecider : Decider → String
   | .table => "table" | .ext m => mgrName m | .fallback => "fallback" | .rejected => "rejected"
+  | .negotiation => "negotiation"
+
+def showEType : EType → String
+  | .cancel => "cancel" | .modify => "modify" | .auth => "auth" | .wait => "wait"
+
+def showECond : ECond → String
+  | .featureNotImplemented => "feature-not-implemented" | .serviceUnavailable => "service-unavailable"
+  | .badRequest => "bad-request" | .itemNotFound => "item-not-found" | .forbidden => "forbidden"
+  | .unexpectedRequest => "unexpected-request" | .notAcceptable => "not-acceptable"
+  | .resourceConstraint => "resource-constraint"
 
 def showRep (r : Rep) : String :=
-  (match r.kind with | .result => "result" | .error => "error") ++ "/" ++
+  (match r.kind with
+   | .result => "result"
+   | .error t c => "error:" ++ showEType t ++ ":" ++ showECond c) ++ "/" ++
   (match r.to with | .sender => "sender" | .none => "none") ++ "/" ++
-  (if r.idSame then "same" else "differs")
+  (if r.idSame then "same" else "differs") ++ "/" ++ (if r.e2ee then "enc" else "plain")
 
 def showOutcome (o : Outcome) : String :=
   let rs := if o.sent.isEmpty then "-" else ",".intercalate (o.sent.map showRep)
-  s!"by={showDecider o.by_} n={replies o} r={rs} disc={if o.disconnect then 1 else 0}"
+  s!"by={showDecider o.by_} n={replies o} r={rs} disc={if o.disconnect then 1 else 0}" ++
+    (if o.other > 0 then s!" x={o.other}" else "")
 
 def stepLine (exts : List Row) (line : String) : List Row × String :=
   match words line with
@@ -93,12 +112,15 @@ def stepLine (exts : List Row) (line : String) : List Row × String :=
     match (l.splitOn ",").mapM mgrOfName with
     | some ms => (ms.map rowOf, "ok")
     | none => (exts, "bad-op")
-  | ["iq", e, t, f, i, k] =>
+  | ["iq", e, ph, t, f, i, k] =>
     match typeOf t, fromOf f, idOf i, kidsOf k with
     | some t, some f, some i, some k =>
-      if e = "s" ∨ e = "e" then
-        (exts, showOutcome (dispatch exts ⟨t, f, i, k, e = "e"⟩))
-      else (exts, "bad-op")
+      let entry : Option Entry := if e = "s" then some .stream else if e = "e" then some .inject
+        else if e = "x" then some .e2ee else none
+      let phase : Option Phase := if ph = "S" then some .session else if ph = "N" then some .negotiating else none
+      match entry, phase with
+      | some entry, some phase => (exts, showOutcome (dispatch exts ⟨t, f, i, k, entry, phase⟩))
+      | _, _ => (exts, "bad-op")
     | _, _, _, _ => (exts, "bad-op")
   | _ => (exts, "bad-op")
 
